@@ -1,9 +1,58 @@
-(* Props/C02.v — adjacency tables agree with edges and plaquettes (property C02). *)
-From Coq Require Import List ZArith Bool Arith.
-From Koala Require Import Model.Lattice Model.Cache Model.Queries Proofs.TablesFacts.
+(* Props/C02.v — all adjacency tables of a lattice agree with its edges and plaquettes; same values
+   whatever the order of first access; the query helpers agree with the tables (property C02).
+
+   Model: Model/Lattice.v (tables), Model/Cache.v (cached_property state machine), Model/Queries.v
+   (graph_utils helpers), Model/TableSpec.v (boolean hypotheses).  Numbers are exact: positions are
+   integers scaled by [scale L]; INVALID is modelled by [None].
+
+   NOT covered by a theorem here (S/K only, see harness/c02.py):
+   * that the plaquette list produced by the sweep satisfies [plaq_list_ok] for EVERY lattice (this is
+     C01's sweep_partition / walk_consistent, in progress in Proofs/LatticeFacts.v); here it is a
+     hypothesis, shown satisfiable by the Examples, and evaluated on every generated lattice by the harness;
+   * "clockwise_about is the table row in reverse cyclic order": proved here only as "same edge set, sorted
+     for its own exact comparator"; the cyclic-order relation is checked on the implementation (S);
+   * the float arctan2 of the implementation versus the exact comparators (K with margin skip);
+   * pickle transporting the state tuple (C09); an unpickled lattice starts in [cinit] because
+     __setstate__ calls __init__, so C02_cache_history_independent applies to it verbatim. *)
+From Coq Require Import List ZArith Bool Arith Permutation Sorted.
+From Koala Require Import Model.Lattice Model.TableSpec Model.Cache Model.Queries.
+From Koala Require Import Proofs.TablesFacts Proofs.SortFacts Proofs.PlaqTablesFacts Proofs.CacheFacts Proofs.QueriesFacts.
 Import ListNotations.
 
-(* clause "edge vectors equal end minus start plus crossing" (positions scaled by [scale L]) *)
+(* ---- clause: "for every vertex the incident-edge list is complete and in clockwise cyclic order
+   starting after 12 o'clock".  Row v of the table is a duplicate-free permutation of the edges
+   touching v; no entry is followed by one with a strictly larger key alpha = arctan2(-x, y) mod 2pi
+   (exact comparator ang_lt: descending alpha = clockwise from just after 12 o'clock, 12 o'clock itself
+   last); if no outward vector is zero the order is global (StronglySorted). *)
+Theorem C02_adjacent_edges_complete_sorted : forall L,
+  length (adj_table L) = nV L /\
+  forall v, (v < nV L)%nat ->
+    let row := nth v (adj_table L) [] in
+    Permutation row (incident L v) /\
+    NoDup row /\
+    (forall e, In e row <-> (e < nE L)%nat /\ (fst (edge_at L e) = v \/ snd (edge_at L e) = v)) /\
+    Sorted (fun a b => ang_lt (outvec L v a) (outvec L v b) = false) row /\
+    ((forall e, In e row -> outvec L v e <> vzero) ->
+     StronglySorted (fun a b => ang_lt (outvec L v a) (outvec L v b) = false) row).
+Proof. exact adjacent_edges_complete_sorted_lemma. Qed.
+Print Assumptions C02_adjacent_edges_complete_sorted.
+
+(* ---- clause: "coordination numbers count the edge ends at every vertex": one entry for EVERY vertex
+   (isolated ones and the highest index included), equal to the number of edge ends at it *)
+Theorem C02_coordination_counts_ends : forall L,
+  length (coordination L) = nV L /\
+  forall v, (v < nV L)%nat -> nth v (coordination L) 0%nat = ends_at v (edges L).
+Proof. exact coordination_lemma. Qed.
+Print Assumptions C02_coordination_counts_ends.
+
+(* the table as coded before fix 6a0729e (np.bincount without minlength) is NOT one entry per vertex:
+   triangle + isolated vertex 3.  (The harness replays this input on the implementation.) *)
+Theorem C02_coordination_without_minlength_refuted :
+  exists L v, wf_lattice L = true /\ (v < nV L)%nat /\ nth_error (coordination_bincount L) v = None.
+Proof. exact coordination_bincount_short. Qed.
+Print Assumptions C02_coordination_without_minlength_refuted.
+
+(* ---- clause: "edge vectors equal end minus start plus crossing" *)
 Theorem C02_vectors_def : forall L,
   length (vectors L) = nE L /\
   forall e, (e < nE L)%nat ->
@@ -13,10 +62,183 @@ Theorem C02_vectors_def : forall L,
 Proof. exact vectors_def_lemma. Qed.
 Print Assumptions C02_vectors_def.
 
-(* clause "coordination numbers count the edge ends at every vertex": one entry for EVERY vertex
-   (also isolated ones, also the highest index), equal to the number of edge ends at it *)
-Theorem C02_coordination_counts_ends : forall L,
-  length (coordination L) = nV L /\
-  forall v, (v < nV L)%nat -> nth v (coordination L) 0%nat = ends_at v (edges L).
-Proof. exact coordination_lemma. Qed.
-Print Assumptions C02_coordination_counts_ends.
+(* ---- clause: "an edge's neighbours are exactly the other edges sharing a vertex with it" *)
+Theorem C02_edge_neighbours_exact : forall L e,
+  (forall f, In f (edge_neighbours L e) <->
+     (f < nE L)%nat /\ f <> e /\
+     (fst (edge_at L e) = fst (edge_at L f) \/ fst (edge_at L e) = snd (edge_at L f) \/
+      snd (edge_at L e) = fst (edge_at L f) \/ snd (edge_at L e) = snd (edge_at L f)))
+  /\ NoDup (edge_neighbours L e) /\ StronglySorted lt (edge_neighbours L e).
+Proof. exact edge_neighbours_exact_lemma. Qed.
+Print Assumptions C02_edge_neighbours_exact.
+
+(* ---- clause: "the adjacency matrix is symmetric with True exactly at joined pairs" *)
+Theorem C02_adjacency_matrix_sym_exact : forall L i j,
+  adjacency_true L i j = adjacency_true L j i /\
+  (adjacency_true L i j = true <-> (In (i, j) (edges L) \/ In (j, i) (edges L))).
+Proof. exact adjacency_sym_exact_lemma. Qed.
+Print Assumptions C02_adjacency_matrix_sym_exact.
+
+(* ---- clause: "an edge's two adjacent plaquettes are the one traversing it forwards and the one
+   traversing it backwards (INVALID where there is none)".  For ANY plaquette list in which no dart occurs
+   twice: column 0 (d = true) of row e is Some n iff plaquette n contains dart (e,+1), column 1 iff it
+   contains (e,-1); None iff no plaquette does. *)
+Theorem C02_edge_sides : forall L ps,
+  darts_disjoint ps = true ->
+  length (edges_plaquettes L ps) = nE L /\
+  forall e d, (e < nE L)%nat ->
+    let c := ep_col (nth e (edges_plaquettes L ps) (None, None)) d in
+    (forall n, c = Some n <-> owner ps (e, d) n) /\
+    (c = None <-> forall n, ~ owner ps (e, d) n).
+Proof. exact edge_sides_lemma. Qed.
+Print Assumptions C02_edge_sides.
+
+(* ---- clause: "a vertex's adjacent plaquettes are exactly those that contain it".  Whenever the table
+   is produced, for ANY plaquette list: row v = the indices of the plaquettes whose vertex list contains v,
+   ascending, each once (also when a plaquette visits v twice), then INVALID up to width max_coord. *)
+Theorem C02_vertex_plaquettes_exact : forall L ps t,
+  vertices_plaquettes L ps = Some t ->
+  length t = nV L /\
+  forall v, (v < nV L)%nat ->
+    nth v t [] = vrow (max_coord L) (holders ps 0 v) /\
+    (length (holders ps 0 v) <= max_coord L)%nat /\
+    length (nth v t []) = max_coord L /\
+    (forall n, In (Some n) (nth v t []) <-> exists p, nth_error ps n = Some p /\ In v (p_verts p)).
+Proof. exact vertex_plaquettes_lemma. Qed.
+Print Assumptions C02_vertex_plaquettes_exact.
+
+(* [holders] is what it should be: ascending, duplicate free, exactly the containing plaquettes *)
+Theorem C02_holders_spec : forall ps v,
+  StronglySorted lt (holders ps 0 v) /\
+  forall n, In n (holders ps 0 v) <-> exists p, nth_error ps n = Some p /\ In v (p_verts p).
+Proof.
+  intros ps v. split. apply holders_sorted.
+  intros n. rewrite holders_in. split.
+  - intros (i & p & -> & Hp & Hv). exists p. auto.
+  - intros (p & Hp & Hv). exists n, p. auto.
+Qed.
+Print Assumptions C02_holders_spec.
+
+(* the "first INVALID slot" search never raises IndexError: #plaquettes at v <= deg v <= max_coord *)
+Theorem C02_vertex_plaquettes_never_fails : forall L ps,
+  wf_lattice L = true ->
+  darts_disjoint ps = true ->
+  forallb (plaq_walk_ok L) ps = true ->
+  (forall v, (length (holders ps 0 v) <= count_ends L v)%nat) /\
+  exists t, vertices_plaquettes L ps = Some t.
+Proof. exact vertex_plaquettes_total_lemma. Qed.
+Print Assumptions C02_vertex_plaquettes_never_fails.
+
+(* ---- clause: "a plaquette's neighbours are the plaquettes across its edges in edge order": entry i of
+   plaquette n's list is the plaquette containing the REVERSED dart of its i-th edge, INVALID iff none
+   (the np.where(row != n) idiom yields exactly one entry per row because a plaquette without a repeated
+   edge never has itself on both sides) *)
+Theorem C02_plaquette_neighbours_across : forall L ps n p,
+  plaq_list_ok L ps = true ->
+  nth_error ps n = Some p ->
+  exists nbs,
+    nth_error (all_plaquette_neighbours L ps) n = Some nbs /\
+    length nbs = length (p_edges p) /\
+    forall i e d, nth_error (plaq_darts p) i = Some (e, d) ->
+      exists x, nth_error nbs i = Some x /\
+        x = ep_col (nth e (edges_plaquettes L ps) (None, None)) (negb d) /\
+        (forall m, x = Some m <-> owner ps (e, negb d) m) /\
+        (x = None <-> forall m, ~ owner ps (e, negb d) m).
+Proof. exact plaquette_neighbours_across_lemma. Qed.
+Print Assumptions C02_plaquette_neighbours_across.
+
+(* ---- clause: "the same values result whatever order these attributes are first accessed in": for EVERY
+   finite history of accesses to plaquettes / n_plaquettes / edges.adjacent_plaquettes /
+   vertices.adjacent_plaquettes from a fresh (or freshly unpickled) lattice, the i-th value returned is the
+   history-free function [pure_value L] of the lattice; never an AttributeError *)
+Theorem C02_cache_history_independent : forall L ops,
+  snd (run L cinit ops) = map (pure_value L) ops.
+Proof. exact cache_history_independent_lemma. Qed.
+Print Assumptions C02_cache_history_independent.
+
+Theorem C02_cache_order_irrelevant : forall L ops1 ops2 o,
+  snd (step L (fst (run L cinit ops1)) o) = snd (step L (fst (run L cinit ops2)) o) /\
+  pure_value L o <> VAttrError.
+Proof. intros. split. apply cache_order_irrelevant. apply pure_value_no_attr_error. Qed.
+Print Assumptions C02_cache_order_irrelevant.
+
+(* ---- clause: "the query helpers agree with the tables" *)
+(* vertex_neighbours: the edge list is the table row as a set (ascending ids), vertex i is the far end of edge i *)
+Theorem C02_query_vertex_neighbours : forall L v,
+  (v < nV L)%nat ->
+  snd (vertex_neighbours L v) = incident L v /\
+  Permutation (snd (vertex_neighbours L v)) (nth v (adj_table L) []) /\
+  fst (vertex_neighbours L v) = map (q_far_end L v) (snd (vertex_neighbours L v)) /\
+  (forall e, In e (snd (vertex_neighbours L v)) ->
+     (fst (edge_at L e) = v /\ q_far_end L v e = snd (edge_at L e)) \/
+     (snd (edge_at L e) = v /\ q_far_end L v e = fst (edge_at L e))).
+Proof. exact vertex_neighbours_lemma. Qed.
+Print Assumptions C02_query_vertex_neighbours.
+
+(* edge_neighbours(lattice, e) = edges.adjacent_edges[e] *)
+Theorem C02_query_edge_neighbours : forall L e, q_edge_neighbours L e = edge_neighbours L e.
+Proof. exact q_edge_neighbours_lemma. Qed.
+Print Assumptions C02_query_edge_neighbours.
+
+(* get_edge_vectors(v, edges of v) = the outward vectors the table is sorted by (no self-loop at v) *)
+Theorem C02_query_edge_vectors : forall L v,
+  (forall e, In e (incident L v) -> fst (edge_at L e) <> snd (edge_at L e)) ->
+  get_edge_vectors L v (snd (vertex_neighbours L v)) = map (outvec L v) (incident L v).
+Proof. exact get_edge_vectors_lemma. Qed.
+Print Assumptions C02_query_edge_vectors.
+
+(* clockwise_about(v): the same edges as the table row, each once, with no descent in the polar angle
+   measured ANTIclockwise from the positive x axis (the behaviour, not the docstring), paired with far ends *)
+Theorem C02_query_clockwise_about : forall L v,
+  (v < nV L)%nat ->
+  let es := snd (clockwise_about L v) in
+  Permutation es (nth v (adj_table L) []) /\
+  NoDup es /\
+  Sorted (fun a b => ang2_lt (q_edge_vector L v b) (q_edge_vector L v a) = false) es /\
+  fst (clockwise_about L v) = map (q_far_end L v) es /\
+  clockwise_edges_about L v = es.
+Proof. exact clockwise_about_lemma. Qed.
+Print Assumptions C02_query_clockwise_about.
+
+(* adjacent_plaquettes(lattice, n) = plaquette n's own adjacent_plaquettes paired with its edges, in edge
+   order, INVALID entries dropped *)
+Theorem C02_query_adjacent_plaquettes : forall L ps n p,
+  darts_disjoint ps = true ->
+  nth_error ps n = Some p ->
+  nodupb (p_edges p) = true ->
+  length (p_dirs p) = length (p_edges p) ->
+  forallb (fun e => e <? nE L)%nat (p_edges p) = true ->
+  let ep := edges_plaquettes L ps in
+  let nbs := plaquette_neighbours ep n p in
+  q_adjacent_plaquettes ps ep n =
+  Some (flat_map (fun xe : option nat * nat => match fst xe with Some m => [m] | None => [] end) (combine nbs (p_edges p)),
+        flat_map (fun xe : option nat * nat => match fst xe with Some m => [snd xe] | None => [] end) (combine nbs (p_edges p))).
+Proof. exact q_adjacent_plaquettes_lemma. Qed.
+Print Assumptions C02_query_adjacent_plaquettes.
+
+(* ---- non-vacuity: the hypotheses hold for the plaquette lists the sweep really produces ---- *)
+(* open lattice: square with a diagonal plus an ISOLATED HIGHEST vertex 4; two triangles *)
+Definition ExL1 := mkLattice 1 [(0,0);(4,0);(4,4);(0,4);(9,9)]%Z
+  [(0,1);(1,2);(2,3);(3,0);(0,2)]%nat [(0,0);(0,0);(0,0);(0,0);(0,0)]%Z.
+(* periodic lattice: 2x2 square lattice on the torus (multigraph: two edges between neighbours); 4 squares *)
+Definition ExL2 := mkLattice 4 [(1,1);(3,1);(1,3);(3,3)]%Z
+  [(0,1);(1,0);(2,3);(3,2);(0,2);(2,0);(1,3);(3,1)]%nat
+  [(0,0);(1,0);(0,0);(1,0);(0,0);(0,1);(0,0);(0,1)]%Z.
+
+Example C02_hypotheses_nonvacuous :
+  (exists ps, find_all_plaquettes ExL1 = Some ps /\ length ps = 2%nat /\ wf_lattice ExL1 = true /\
+              plaq_list_ok ExL1 ps = true /\ darts_disjoint ps = true /\ forallb (plaq_walk_ok ExL1) ps = true /\
+              edges_plaquettes ExL1 ps = [(Some 0, None); (Some 0, None); (Some 1, None); (Some 1, None); (Some 1, Some 0)]%nat /\
+              vertices_plaquettes ExL1 ps =
+                Some [[Some 0; Some 1; None]; [Some 0; None; None]; [Some 0; Some 1; None]; [Some 1; None; None]; [None; None; None]]%nat /\
+              all_plaquette_neighbours ExL1 ps = [[None; None; Some 1]; [None; None; Some 0]]%nat /\
+              coordination ExL1 = [3; 2; 3; 2; 0]%nat) /\
+  (exists ps, find_all_plaquettes ExL2 = Some ps /\ length ps = 4%nat /\ wf_lattice ExL2 = true /\
+              plaq_list_ok ExL2 ps = true /\ darts_disjoint ps = true /\ forallb (plaq_walk_ok ExL2) ps = true /\
+              nth 0 (edges_plaquettes ExL2 ps) (None, None) = (Some 0, Some 1)%nat /\
+              pure_value ExL2 GetNPlaquettes = VNat 4).
+Proof.
+  split.
+  - eexists. split. vm_compute. reflexivity. vm_compute. repeat split; reflexivity.
+  - eexists. split. vm_compute. reflexivity. vm_compute. repeat split; reflexivity.
+Qed.
